@@ -20,9 +20,10 @@ class C21(Prop):
           "timestamp) or constant. Oracle: the live-spy callback stream equals the concatenation "
           "of every step's spy log (as C19 computes it) and the live-trace callback stream equals "
           "one line per new trace record (as C20 computes it), each exactly once and in order. "
-          "Non-trivial: >=2 transitions happened while the clock returned the same timestamp; "
-          "distinct = distinct case digests. (The active-object writer thread is exercised by the "
-          "scheduler-based part of this check when available.)")
+          "Non-trivial: live trace is on and >=2 transitions happened while the clock returned the same timestamp; "
+          "distinct = distinct case digests. One case in three hosts the chart on a started ActiveObject "
+          "under the deterministic scheduler, where the callbacks are invoked by the live-output "
+          "writer thread; the same oracle applies after every settle.")
   assumptions = [
     "the clock is substituted by rebinding miros.hsm.stdlib_datetime to a datetime subclass",
     "a next_rtc/complete_circuit on an empty queue is not a step and is not generated",
@@ -30,13 +31,46 @@ class C21(Prop):
 
   def strategy(self, tier):
     return st.tuples(spytrace.history(tier), st.sampled_from(CLOCKS),
-                     st.sampled_from([(True, True), (True, False), (False, True)])).map(
-      lambda t: dict(t[0], clock=t[1], live=list(t[2])))
+                     st.sampled_from([(True, True), (True, False), (False, True)]),
+                     st.sampled_from(["queued", "queued", "ao"])).map(
+      lambda t: dict(t[0], clock=t[1], live=list(t[2]), host=t[3]))
 
   def check(self, case, stats):
+    if case.get("host") == "ao":
+      return self.check_ao(case, stats)
+    return self.check_run(case, stats, None)
+
+  def check_ao(self, case, stats):
+    """The same oracle with the chart hosted on a started ActiveObject: live output goes through
+    the writer thread (run under the deterministic scheduler, round-robin)."""
+    from .. import detsched
+    if case.get("budget", 30) > 30:
+      case = dict(case, budget=30, ops=[o for o in case["ops"] if o[0] != "bulk_post"])
+    ao = detsched.install()
+    detsched.reset(ao)
+    files = detsched.miros_files()
+    s = detsched.Scheduler(schedule=[], step_limit=3000000, trace_files=[files["activeobject"]])
+    box = {}
+
+    def body(sch):
+      try:
+        self.check_run(case, stats, "ao")
+      except PropertyViolation as v:
+        box["v"] = v
+    try:
+      s.run(body)
+    except (detsched.Deadlock, detsched.StepLimit) as e:
+      raise PropertyViolation("no quiescence with live output on an active object: %s" % e, "C21:liveness")
+    if "v" in box:
+      raise box["v"]
+    if s.thread_errors:
+      name, e, tb = s.thread_errors[0]
+      raise PropertyViolation("thread %s died: %s: %s" % (name, type(e).__name__, e), "C21:thread-error")
+
+  def check_run(self, case, stats, host):
     live_spy, live_trace = case["live"]
-    run = spytrace.Run(case, live_spy=live_spy, live_trace=live_trace, clock=case["clock"])
-    classes = ["clock_" + case["clock"]]
+    run = spytrace.Run(case, live_spy=live_spy, live_trace=live_trace, clock=case["clock"], host=host)
+    classes = ["clock_" + case["clock"], "host_" + (host or "queued")]
     try:
       try:
         run.start()
